@@ -1,6 +1,7 @@
 import J5V.Compile.StrcaseProofs
 import J5V.Compile.ConvertProofs
 import J5V.Compile.Entity
+import J5V.Generated.CompileconstsFacts
 /-!
 # C17 — entity declarations expand to a complete, mutually consistent API
 
@@ -254,6 +255,60 @@ example : (convEnum (statusEnum exEntity)).values =
 
 /-- the witness of the counterexample: `FooA` -/
 example : toCamel (b!"FooA" ++ b!"State") = b!"FooAstate" ∧ toCamel b!"FooA" ++ b!"State" = b!"FooAState" := by
+  decide
+
+end J5V.Props.C17
+
+/-! ## Obligations over facts regenerated from the current source (`extract compileconsts`) -/
+namespace J5V.Props.C17
+open J5V.Generated.Compileconsts
+
+/-- every strcase call of `entity.go` takes a plain operand (a field, `name`, `suffix`): the
+defect shape `strcase.ToCamel(entity.Name + "State")` — case conversion of a concatenation —
+does not occur. The calls, in source order: -/
+theorem C17_src_strcase_calls :
+    (strcaseCalls.filter fun (f, _, _) => f = "sourcewalk/entity.go").map (fun (_, fn, call) => (fn, call)) =
+      [ ("entityNode.componentName", "strcase.ToCamel(ent.Schema.Name)"),
+        ("entityNode.componentName", "strcase.ToCamel(suffix)"),
+        ("entityNode.fullName", "strcase.ToCamel(ent.Schema.Name)"),
+        ("entityNode.run", "strcase.ToSnake(ent.Schema.Name)"),
+        ("entityNode.acceptStatus", "strcase.ToScreamingSnake(entity.Name)"),
+        ("entityNode.findStatus", "strcase.ToScreamingSnake(ent.Schema.Name)"),
+        ("entityNode.acceptEventOneof", "strcase.ToLowerCamel(eventObjectSchema.Def.Name)"),
+        ("entityNode.acceptCommands", "strcase.ToCamel(ent.Schema.Name)"),
+        ("entityNode.acceptSummaryTopics", "strcase.ToCamel(ent.Schema.Name)"),
+        ("entityNode.acceptSummaryTopics", "strcase.ToCamel(ent.Schema.Name)"),
+        ("entityNode.acceptSummaryTopics", "strcase.ToCamel(summary.Name)"),
+        ("entityNode.acceptPublishTopic", "strcase.ToCamel(ent.Schema.Name)"),
+        ("entityNode.acceptPublishTopic", "strcase.ToCamel(ent.Schema.Name)"),
+        ("entityNode.acceptQuery", "strcase.ToCamel(entity.Name)"),
+        ("entityNode.acceptQuery", "strcase.ToLowerCamel(name)"),
+        ("entityNode.acceptQuery", "strcase.ToCamel(entity.Name)"),
+        ("entityNode.acceptQuery", "strcase.ToLowerCamel(name)"),
+        ("entityNode.acceptQuery", "strcase.ToCamel(entity.Name)"),
+        ("entityNode.acceptQuery", "strcase.ToCamel(entity.Name)") ] := by
+  decide
+
+/-- `componentName` is `ToCamel(name) + ToCamel(suffix)`; the entity's snake name comes from
+`RangeRootElements` -/
+theorem C17_src_component_name :
+    (strcaseCalls.filter fun (_, fn, _) => fn = "entityNode.componentName") =
+      [ ("sourcewalk/entity.go", "entityNode.componentName", "strcase.ToCamel(ent.Schema.Name)"),
+        ("sourcewalk/entity.go", "entityNode.componentName", "strcase.ToCamel(suffix)") ] ∧
+    ("sourcewalk/file.go", "FileNode.RangeRootElements", "strcase.ToSnake(entity.Name)") ∈ strcaseCalls := by
+  decide
+
+/-- the component suffixes used by the model are the literals of the source -/
+theorem C17_src_suffixes :
+    ∀ s ∈ [ ("entityNode.acceptKeys", "Keys"), ("entityNode.acceptData", "Data"),
+            ("entityNode.acceptStatus", "Status"), ("entityNode.acceptStatus", "_STATUS_"),
+            ("entityNode.acceptState", "State"), ("entityNode.acceptEventOneof", "EventType"),
+            ("entityNode.acceptEvent", "Event"), ("entityNode.acceptQuery", "%sGet"),
+            ("entityNode.acceptQuery", "%sList"), ("entityNode.acceptQuery", "%sEvents"),
+            ("entityNode.acceptQuery", "%sQuery"), ("entityNode.acceptCommands", "%sCommand"),
+            ("entityNode.acceptPublishTopic", "%sPublish"), ("entityNode.acceptPublishTopic", "%sEvent"),
+            ("entityNode.acceptSummaryTopics", "%sSummary") ],
+      ("sourcewalk/entity.go", s.1, s.2) ∈ stringLiterals := by
   decide
 
 end J5V.Props.C17
